@@ -3058,13 +3058,26 @@ L720:
 
 typedef struct {
      double *s, *xs;
+     const double *lb, *ub;     /* original (unscaled) bounds */
      nlopt_func f; void *f_data;
 } rescale_fun_data;
+
+/* x was clamped to the bounds in rescaled coordinates; multiplying by the scale
+   can round it just outside the original bounds again */
+static void clamp_to_bounds(int n, double *x, const double *lb, const double *ub)
+{
+     int j;
+     for (j = 0; j < n; ++j) {
+          if (x[j] < lb[j]) x[j] = lb[j];
+          else if (x[j] > ub[j]) x[j] = ub[j];
+     }
+}
 
 static double rescale_fun(int n, const double *x, void *d_)
 {
      rescale_fun_data *d = (rescale_fun_data*) d_;
      nlopt_unscale(U(n), d->s, x, d->xs);
+     clamp_to_bounds(n, d->xs, d->lb, d->ub);
      return d->f(U(n), d->xs, NULL, d->f_data);
 }
 
@@ -3088,6 +3101,7 @@ nlopt_result bobyqa(int n, int npt, double *x,
     double *w0 = NULL, *w;
     nlopt_result ret;
     double *s = NULL, *sxl = NULL, *sxu = NULL, *xs = NULL;
+    const double *xl0 = xl, *xu0 = xu; /* original bounds */
     rescale_fun_data calfun_data;
     
     /* SGJ 2010: rescale parameters to make the initial step sizes dx
@@ -3120,6 +3134,8 @@ nlopt_result bobyqa(int n, int npt, double *x,
 
     calfun_data.s = s;
     calfun_data.xs = xs;
+    calfun_data.lb = xl0;
+    calfun_data.ub = xu0;
     calfun_data.f = f;
     calfun_data.f_data = f_data;
 
@@ -3274,6 +3290,7 @@ done:
     free(sxu);
     free(xs);
     ++x; nlopt_unscale(U(n), s, x, x);
+    clamp_to_bounds(n, x, xl0, xu0);
     free(s);
     return ret;
 } /* bobyqa_ */
